@@ -20,8 +20,10 @@ SHARDS = {'quick': 4, 'thorough': 16}
 TIMEOUT = {'quick': 300, 'thorough': 3000}
 N_DESC = {'quick': 1500, 'thorough': 120000}
 MOD = 'vlib.fixtures.decodables'
+ALT = 'vlib.fixtures.decodables_alt'
 RULE = ('cases: seeded descriptions with 0-4 systems (arbitrary priorities, frequency/start/end given or defaulted, arbitrary ids), 0-3 agent '
-        'groups of size 0-5, every subset of the optional hooks (pre/post model, pre/post per system, pre/post per agent group); decoded '
+        'groups of size 0-5, every subset of the optional hooks (pre/post model, pre/post per system, pre/post per agent group), entries resolved in one module or in two '
+        'modules defining the same symbol names, models that are already complete while being decoded; decoded '
         'through a dict-returning Decoder subclass and through JsonDecoder on real temporary files, the same file twice and several files in '
         'one process. Oracle: the recorded event sequence equals the expected one; every system/agent factory and every system-/agent-level '
         'hook received the decoded model; a post-system hook sees its system registered, a pre-system hook does not; agent i is created after '
@@ -32,16 +34,23 @@ ASSUMPTIONS = ['fixtures record what they are handed; the model-level hooks are 
                'most recently created model', 'descriptions are well-formed (unique system ids)']
 FLOORS = {'quick': {'decodes': 2000, 'events_compared': 15000, 'json_decodes': 800, 'dict_decodes': 800, 'repeat_decodes': 300,
                     'groups_of_size_zero': 200, 'descriptions_without_systems': 100, 'descriptions_without_agents': 100,
-                    'hooks_run': 5000, 'agents_created': 3000, 'reach:Decode.Decoder.decode': 2000, 'reach:Decode.JsonDecoder.open_file': 800},
+                    'hooks_run': 5000, 'agents_created': 3000, 'complete_models': 300, 'two_module_descriptions': 200, 'reach:Decode.Decoder.decode': 2000, 'reach:Decode.JsonDecoder.open_file': 800},
           'thorough': {'decodes': 150000}}
 EXHAUSTIVE = {}
 
 
 def gen_description(rng, label):
-    d = {'model': {'name': 'RModel', 'module': MOD, 'params': {'label': label, 'seed': rng.randint(0, 99)}}, 'systems': [], 'agents': []}
+    two_modules = rng.random() < 0.4      # the same symbol names resolved in two different modules within one description
+
+    def mod():
+        return rng.choice([MOD, ALT]) if two_modules else MOD
+
+    d = {'model': {'name': 'RModel', 'module': mod(), 'params': {'label': label, 'seed': rng.randint(0, 99)}}, 'systems': [], 'agents': []}
+    if rng.random() < 0.25:
+        d['model']['params']['complete'] = True
 
     def h(kind, name=None):
-        return {'func': 'hook', 'module': MOD, 'params': {'kind': kind, 'name': name}}
+        return {'func': 'hook', 'module': mod(), 'params': {'kind': kind, 'name': name}}
 
     if rng.random() < 0.5:
         d['pre_model_decode'] = h('pre_model', label)
@@ -58,14 +67,14 @@ def gen_description(rng, label):
             p['start'] = rng.randint(0, 6)
         if rng.random() < 0.4:
             p['end'] = rng.randint(5, 50)
-        s = {'name': 'RSystem', 'module': MOD, 'params': p}
+        s = {'name': 'RSystem', 'module': mod(), 'params': p}
         if rng.random() < 0.5:
             s['pre_system_init'] = h('pre_sys', sid)
         if rng.random() < 0.5:
             s['post_system_init'] = h('post_sys', sid)
         d['systems'].append(s)
     for g in rng.sample(['sheep', 'wolf', 'grass'], rng.choice([0, 1, 1, 2, 3])):
-        a = {'name': 'RAgent', 'module': MOD, 'number': rng.choice([0, 1, 2, 3, 5]), 'params': {'group': g}}
+        a = {'name': 'RAgent', 'module': mod(), 'number': rng.choice([0, 1, 2, 3, 5]), 'params': {'group': g}}
         if rng.random() < 0.5:
             a['pre_agent_init'] = h('pre_agents', g)
         if rng.random() < 0.5:
@@ -77,29 +86,29 @@ def gen_description(rng, label):
 def expected_events(d):
     ev = []
     if 'pre_model_decode' in d:
-        ev.append(('pre_model', d['model']['params']['label'], None, None, None, 'nomodel'))
-    ev.append(('model_create', d['model']['params']['label'], None, [], 0, 'nomodel'))
+        ev.append(('pre_model', d['model']['params']['label'], None, None, None, 'nomodel', d['pre_model_decode']['module']))
+    ev.append(('model_create', d['model']['params']['label'], None, [], 0, 'nomodel', d['model']['module']))
     reg = []
     for s in d['systems']:
         sid = s['params']['id']
         if 'pre_system_init' in s:
-            ev.append(('pre_sys', sid, None, sorted(reg), 0, 'model'))
-        ev.append(('sys_create', sid, None, sorted(reg), 0, 'model'))
+            ev.append(('pre_sys', sid, None, sorted(reg), 0, 'model', s['pre_system_init']['module']))
+        ev.append(('sys_create', sid, None, sorted(reg), 0, 'model', s['module']))
         reg.append(sid)
         if 'post_system_init' in s:
-            ev.append(('post_sys', sid, None, sorted(reg), 0, 'model'))
+            ev.append(('post_sys', sid, None, sorted(reg), 0, 'model', s['post_system_init']['module']))
     n = 0
     for a in d['agents']:
         g = a['params']['group']
         if 'pre_agent_init' in a:
-            ev.append(('pre_agents', g, None, sorted(reg), n, 'model'))
+            ev.append(('pre_agents', g, None, sorted(reg), n, 'model', a['pre_agent_init']['module']))
         for i in range(a['number']):
-            ev.append(('agent_create', g, i, sorted(reg), n, 'model'))
+            ev.append(('agent_create', g, i, sorted(reg), n, 'model', a['module']))
             n += 1
         if 'post_agent_init' in a:
-            ev.append(('post_agents', g, None, sorted(reg), n, 'model'))
+            ev.append(('post_agents', g, None, sorted(reg), n, 'model', a['post_agent_init']['module']))
     if 'post_model_decode' in d:
-        ev.append(('post_model', d['model']['params']['label'], None, sorted(reg), n, 'nomodel'))
+        ev.append(('post_model', d['model']['params']['label'], None, sorted(reg), n, 'nomodel', d['post_model_decode']['module']))
     return ev
 
 
@@ -115,12 +124,13 @@ def decode_and_check(ctx, decoder, arg, d, how):
     ctx.ev()
     detail = dict(how=how, description={k: (v if k in ('model',) else ([{kk: vv for kk, vv in x.items() if kk != 'params'} for x in v]
                                                                          if isinstance(v, list) else 'hook')) for k, v in d.items()})
-    short = [(e['kind'], e['name'], e['index']) for e in got]
-    if short != [(k, n, i) for (k, n, i, _, _, _) in exp]:
-        raise CaseViolation('lifecycle events differ from the documented order', expected=[(k, n, i) for (k, n, i, _, _, _) in exp],
+    short = [(e['kind'], e['name'], e['index'], e['module'].rsplit('.', 1)[-1]) for e in got]
+    want = [(k, n, i, mo.rsplit('.', 1)[-1]) for (k, n, i, _, _, _, mo) in exp]
+    if short != want:
+        raise CaseViolation('lifecycle events differ from the documented order (kind, name, index, module that was invoked)', expected=want,
                             observed=short, **detail)
     mid = id(model)
-    for e, (k, n, i, reg, nres, needs) in zip(got, exp):
+    for e, (k, n, i, reg, nres, needs, _mo) in zip(got, exp):
         ctx.count('events_compared')
         if k == 'pre_model':
             check(e['model'] is None, 'the pre-model hook ran after a model had already been created', **detail)
@@ -135,7 +145,12 @@ def decode_and_check(ctx, decoder, arg, d, how):
         if k == 'agent_create':
             ctx.count('agents_created')
     # the resulting model
-    check(isinstance(model, fx.RModel) and model.label == d['model']['params']['label'], 'decode returned the wrong model', **detail)
+    check(type(model).__name__ == 'RModel' and type(model).__module__ == d['model']['module'] and model.label == d['model']['params']['label'],
+          'decode returned the wrong model', **detail)
+    if d['model']['params'].get('complete'):
+        ctx.count('complete_models')
+    if any(x != d['model']['module'] for x in [s['module'] for s in d['systems']] + [a['module'] for a in d['agents']]):
+        ctx.count('two_module_descriptions')
     want_sys = {s['params']['id']: s['params'] for s in d['systems']}
     have = model.systems.systems
     check(sorted(have.keys()) == sorted(want_sys.keys()), f'model has systems {sorted(have)}, description lists {sorted(want_sys)}', **detail)
@@ -153,7 +168,7 @@ def decode_and_check(ctx, decoder, arg, d, how):
 
 def case_desc(ctx, case):
     import ECAgent.Decode as decode
-    from vlib.fixtures import decodables  # noqa - must be in sys.modules for the decoder
+    from vlib.fixtures import decodables, decodables_alt  # noqa - must be in sys.modules for the decoder
     rng = ctx.rng('desc', case['i'])
 
     class DictDecoder(decode.Decoder):
@@ -204,7 +219,7 @@ def case_desc(ctx, case):
         d = descs[0]
         ctx.sample({'kind': 'description', 'i': case['i'], 'systems': [s['params'] for s in d['systems']],
                     'agents': [(a['params']['group'], a['number']) for a in d['agents']],
-                    'events': [(k, n, i) for (k, n, i, _, _, _) in expected_events(d)][:14]})
+                    'events': [(k, n, i) for (k, n, i, _, _, _, _) in expected_events(d)][:14]})
 
 
 def run_case(ctx, case):
